@@ -38,7 +38,7 @@ theorem fillHand_spec (hv : Bool) (need : Nat) : ∀ (rs : List Bytes) (hand : B
 
 theorem readHandshake_chunking (hv : Bool) (rs : List Bytes) (hok : recordsOK hv rs = true) :
     readHandshakeBytes hv rs = hsSpec rs.flatten := by
-  unfold readHandshakeBytes hsSpec
+  unfold readHandshakeBytes readHandshakeStep hsSpec
   obtain ⟨f1, f2⟩ := fillHand_spec hv 4 rs [] hok
   simp only [List.nil_append] at f1 f2
   by_cases h4 : rs.flatten.length < 4
